@@ -12,7 +12,7 @@ import (
 func init() {
 	register(&propDef{
 		ID:          "C02",
-		Explanation: "Decides four structural necessary conditions of 'generated Go compiles and renders what the template denotes', for ALL emission paths of the generator (GEM: every function of package generator abstracted to a tree of emissions; loops unrolled 0/1/2; paths rendered with typed placeholders and parsed with go/parser): R1 every path is syntactically valid Go; R2 every string-literal emission is a well-formed interpreted-string body (constants checked with strconv.Unquote, holes must come through escapeQuotes or be html-escaped parser names); R3 expressions owned by a guarded construct (if / else-if / for / switch / case / conditional attribute) are only emitted or collected after the guard's own expression was emitted in the same function; R4 the two void-element tables agree, the void early-return precedes children and close tag, Go comments emit nothing; R5 the literal-coalescing layer closes a pending literal before any Go text; R6 every emission path type-checks (go/types, in process) against the current templ and templ/runtime packages with its holes left as undefined placeholders — a misspelled or removed runtime function, a wrong argument count, an assignment count mismatch or a wrongly typed value in an emitted template is reported; R7 a control-flow writer that receives the node following its own node passes it to every child list it writes (if / else-if / else, for, switch cases), so the last inline child of whichever branch is taken keeps its separation from inline content after the statement; R8 in the spread-attribute renderer every case whose value carries a boolean (bool, *bool, func() bool, KeyValue[…, bool]) writes the attribute only under a condition that has that boolean as a conjunct. NOT decided: denotation/order of markup, trailing-space policy, argument passing, that `go build` accepts arbitrary user expressions.",
+		Explanation: "Decides four structural necessary conditions of 'generated Go compiles and renders what the template denotes', for ALL emission paths of the generator (GEM: every function of package generator abstracted to a tree of emissions; loops unrolled 0/1/2; paths rendered with typed placeholders and parsed with go/parser): R1 every path is syntactically valid Go; R2 every string-literal emission is a well-formed interpreted-string body (constants checked with strconv.Unquote, holes must come through escapeQuotes or be html-escaped parser names); R3 expressions owned by a guarded construct (if / else-if / for / switch / case / conditional attribute) are only emitted or collected after the guard's own expression was emitted in the same function; R4 the two void-element tables agree, the void early-return precedes children and close tag, Go comments emit nothing; R5 the literal-coalescing layer closes a pending literal before any Go text; R6 every emission path type-checks (go/types, in process) against the current templ and templ/runtime packages with its holes left as undefined placeholders — a misspelled or removed runtime function, a wrong argument count, an assignment count mismatch or a wrongly typed value in an emitted template is reported; R7 a control-flow writer that receives the node following its own node passes it to every child list it writes (if / else-if / else, for, switch cases), so the last inline child of whichever branch is taken keeps its separation from inline content after the statement; R8 in the spread-attribute renderer every case whose value carries a boolean (bool, *bool, func() bool, KeyValue[…, bool]) writes the attribute only under a condition that has that boolean as a conjunct; R9 the node dispatcher renders a node's trailing whitespace exactly under `inline-or-text(current) && inline-or-text(next)` (same classifier on both); R10 element writers emit open tag, attributes, '>', children and close tag in this order on every path; R11 no emitted `if <expr> {` / `for <expr> {` has an empty body (what the condition guards is emitted inside it). NOT decided: that the emitted constants spell the template's markup (only their order and well-formedness), argument passing, that `go build` accepts arbitrary user expressions.",
 		Assumptions: []string{"go/parser accepts exactly syntactically valid Go", "placeholders stand for a user expression / identifier of the right syntactic category (searched, ≤5 categories per hole)"},
 		Trusted:     []string{"go/types", "go/parser", "x/tools go/packages", "strconv.Unquote"},
 		Run:         runC02,
@@ -29,6 +29,9 @@ func runC02(c *Ctx) {
 	rwLayer(c, "C02.R5")
 	nextSiblingPropagation(c, "C02.R7")
 	boolAttributePresence(c, "C02.R8")
+	trailingSpacePolicy(c, "C02.R9")
+	elementEmissionOrder(c, "C02.R10")
+	guardedBodiesNotEmpty(c, "C02.R11")
 }
 
 // guarded child lists: owner type → fields that hold the guarded children
@@ -632,4 +635,209 @@ func boolAttributePresence(c *Ctx, rule string) {
 			fmt.Sprintf("RenderAttributes, case %s: %s — the attribute would be present although its boolean value is false", tstr, why))
 	}
 	c.floor(rule, 4)
+}
+
+// trailingSpacePolicy: C02.R9 — whitespace between two nodes is rendered exactly when both are inline-or-text.
+func trailingSpacePolicy(c *Ctx, rule string) {
+	g := c.gem()
+	nodeT, _ := c.pkg("parser/v2").Types.Scope().Lookup("Node").(*types.TypeName)
+	found := false
+	for _, gf := range g.order {
+		if !gf.Emits {
+			continue
+		}
+		// the node dispatcher: two parser.Node parameters (current, next)
+		var nodeParams []types.Object
+		for _, prm := range gf.Decl.Type.Params.List {
+			if t := g.info.TypeOf(prm.Type); t != nil && nodeT != nil && types.Identical(t, nodeT.Type()) {
+				for _, nm := range prm.Names {
+					nodeParams = append(nodeParams, g.info.Defs[nm])
+				}
+			}
+		}
+		if len(nodeParams) != 2 {
+			continue
+		}
+		cur, next := nodeParams[0], nodeParams[1]
+		// needed := classifier(current) && classifier(next)
+		var neededObj types.Object
+		okExpr := false
+		desc := ""
+		ast.Inspect(gf.Decl.Body, func(n ast.Node) bool {
+			as, ok := n.(*ast.AssignStmt)
+			if !ok || len(as.Lhs) != 1 || len(as.Rhs) != 1 {
+				return true
+			}
+			be, ok := ast.Unparen(as.Rhs[0]).(*ast.BinaryExpr)
+			if !ok {
+				return true
+			}
+			classifierArg := func(e ast.Expr) (types.Object, *types.Func) {
+				call, ok := ast.Unparen(e).(*ast.CallExpr)
+				if !ok || len(call.Args) != 1 {
+					return nil, nil
+				}
+				id, ok := call.Args[0].(*ast.Ident)
+				if !ok {
+					return nil, nil
+				}
+				return g.info.ObjectOf(id), calleeOf(g.info, call)
+			}
+			a, fa := classifierArg(be.X)
+			b, fb := classifierArg(be.Y)
+			if a == nil || b == nil || fa == nil || fb == nil {
+				return true
+			}
+			if lid, ok := as.Lhs[0].(*ast.Ident); ok {
+				neededObj = g.info.ObjectOf(lid)
+			}
+			desc = types.ExprString(as.Rhs[0])
+			okExpr = be.Op == token.LAND && fa == fb && ((a == cur && b == next) || (a == next && b == cur))
+			return true
+		})
+		if neededObj == nil {
+			continue
+		}
+		found = true
+		c.check(okExpr, rule, gf.Key+"|space-needed-iff-both-inline", c.pos(gf.Decl.Pos()), desc,
+			fmt.Sprintf("%s computes whether trailing whitespace is rendered as `%s`; it must be <inline?>(current) && <inline?>(next) with the same classifier: otherwise whitespace is invented next to block content or lost between inline neighbours", gf.Name, desc))
+		// the trailer write is guarded by that flag and by the node being a whitespace trailer
+		guarded := false
+		ast.Inspect(gf.Decl.Body, func(n ast.Node) bool {
+			is, ok := n.(*ast.IfStmt)
+			if !ok {
+				return true
+			}
+			conj := map[string]bool{}
+			var walk func(e ast.Expr)
+			walk = func(e ast.Expr) {
+				e = ast.Unparen(e)
+				if be, ok := e.(*ast.BinaryExpr); ok && be.Op == token.LAND {
+					walk(be.X)
+					walk(be.Y)
+					return
+				}
+				conj[types.ExprString(e)] = true
+			}
+			walk(is.Cond)
+			if !conj[neededObj.Name()] {
+				return true
+			}
+			// body calls a writer with <x>.Trailing()
+			ast.Inspect(is.Body, func(m ast.Node) bool {
+				if call, ok := m.(*ast.CallExpr); ok {
+					for _, a := range call.Args {
+						if strings.HasSuffix(types.ExprString(a), ".Trailing()") {
+							guarded = true
+						}
+					}
+				}
+				return true
+			})
+			return true
+		})
+		c.check(guarded, rule, gf.Key+"|trailer-written-under-flag", c.pos(gf.Decl.Pos()), "the node's own trailing space is written only when the flag holds",
+			gf.Name+": the trailing whitespace of a node is no longer written under the `both neighbours inline` flag")
+	}
+	if !found {
+		c.viol(rule, "anchor-lost:trailing-space-policy", "", "no node dispatcher (current, next parser.Node) computing the trailing-space flag was found")
+	}
+}
+
+// elementEmissionOrder: C02.R10 — static markup in source order: open tag, attributes, '>', children, close tag.
+func elementEmissionOrder(c *Ctx, rule string) {
+	g := c.gem()
+	n := 0
+	for _, gf := range g.order {
+		if !gf.Emits {
+			continue
+		}
+		for pi, path := range g.Paths(gf) {
+			path = mapRelevant(path)
+			iOpen, iAttrs, iGt, iChildren, iClose := -1, -1, -1, -1, -1
+			for i, nd := range path {
+				switch nd := nd.(type) {
+				case Emit:
+					if !nd.Lit || len(nd.Parts) == 0 || nd.Parts[0].Kind != PConst {
+						continue
+					}
+					t := nd.Parts[0].Const
+					switch {
+					case strings.HasPrefix(t, "</"):
+						iClose = i
+					case strings.HasPrefix(t, "<") && !strings.HasPrefix(t, "<!") && iOpen < 0:
+						iOpen = i
+						if strings.HasSuffix(nd.Parts[len(nd.Parts)-1].Const, ">") && nd.Parts[len(nd.Parts)-1].Kind == PConst {
+							iGt = i
+						}
+					case t == ">" && iGt < 0:
+						iGt = i
+					}
+				case CallW:
+					for _, a := range nd.Args {
+						s := types.ExprString(a)
+						if strings.Contains(s, "Children") || strings.Contains(s, ".Contents") {
+							if iChildren < 0 {
+								iChildren = i
+							}
+						}
+					}
+					if strings.Contains(nd.Name, "ElementAttributes") && iAttrs < 0 {
+						iAttrs = i
+					}
+				}
+			}
+			if iOpen < 0 || iClose < 0 {
+				continue
+			}
+			n++
+			ok := iOpen < iClose && (iGt < 0 || (iOpen <= iGt && iGt < iClose)) && (iAttrs < 0 || (iOpen < iAttrs && iAttrs < iGt)) && (iChildren < 0 || (iGt >= 0 && iGt < iChildren && iChildren < iClose))
+			c.check(ok, rule, fmt.Sprintf("%s|open-attrs-gt-children-close", gf.Key), c.pos(gf.Decl.Pos()), "open tag, attributes, '>', children, close tag in this order",
+				fmt.Sprintf("%s (path %d) does not emit an element in source order (open %d, attributes %d, '>' %d, children %d, close %d)", gf.Name, pi, iOpen, iAttrs, iGt, iChildren, iClose))
+		}
+	}
+	c.count("element_emission_paths", n)
+	c.floor(rule, 2)
+}
+
+// guardedBodiesNotEmpty: C02.R11 — an emitted `if <expr> {` / `for <expr> {` guards what it was written for.
+func guardedBodiesNotEmpty(c *Ctx, rule string) {
+	g := c.gem()
+	n := 0
+	for _, gf := range g.order {
+		if !gf.Emits {
+			continue
+		}
+		bad := ""
+		for _, sk := range g.Skeletons(gf) {
+			if sk.File == nil {
+				continue
+			}
+			ast.Inspect(sk.File, func(x ast.Node) bool {
+				switch s := x.(type) {
+				case *ast.IfStmt:
+					if strings.HasPrefix(types.ExprString(s.Cond), "UX") {
+						n++
+						if len(s.Body.List) == 0 {
+							bad = "if " + types.ExprString(s.Cond) + " { }"
+						}
+					}
+				case *ast.ForStmt:
+					if s.Cond != nil && strings.HasPrefix(types.ExprString(s.Cond), "UX") {
+						n++
+						if len(s.Body.List) == 0 {
+							bad = "for " + types.ExprString(s.Cond) + " { }"
+						}
+					}
+				}
+				return true
+			})
+		}
+		if bad != "" {
+			c.viol(rule, gf.Key+"|guarded-body-not-empty", c.pos(gf.Decl.Pos()), gf.Name+" emits `"+bad+"` with an empty body: what the condition is supposed to guard is emitted outside of it (it would be present whether or not the condition holds)")
+		} else {
+			c.ok(rule, gf.Key+"|guarded-body-not-empty", c.pos(gf.Decl.Pos()), "every emitted guard has its content inside")
+		}
+	}
+	c.count("emitted_guards", n)
 }
